@@ -37,6 +37,7 @@ AS_VARIANTS = [
     {"zoo": "Z8", "wave": True, "relief": True},
     {"zoo": "Z8", "pm": True},
     {"zoo": "Z9"},
+    {"zoo": "Z9", "same_shape": True},
     {"zoo": "Z10"},
     {"zoo": "Z11", "compressible": True},
     {"zoo": "Z11", "ground": True},
@@ -211,6 +212,40 @@ def round_trip(model, point_name):
         cmp("def_mesh", n, "dt_%s.def_mesh" % n, cp + n + ".def_mesh")
         cmp("loads", n, "lt_%s.loads" % n, cp + n + "_loads.loads")
         cmp("disp", n, "ss_%s.disp" % n, cp + n + ".disp")
+    return out
+
+
+def conservation(model, point_name):
+    """Independent physical identity at the converged state, from public outputs only: the nodal loads the
+    structure receives carry the same total force and the same total moment (about the origin) as the panel
+    forces acting at the quarter-chord points of the *deformed* mesh:
+        sum_n F_n = sum_p f_p ;  sum_n [(x_n + u_n) x F_n + M_n] = sum_p a_p x f_p
+    with x_n the structural nodes, u_n their converged translations, a_p the panel aerodynamic centres. No
+    OpenAeroStruct transfer code is used on the right-hand side, so a transfer that is consistently wrong
+    (every solver and path agreeing on it) is still seen."""
+    live = model.prob
+    pt = live.model._get_subsystem(point_name)
+    cp = point_name + ".coupled."
+    out = []
+    for s in pt.options["surfaces"]:
+        n = s["name"]
+        mesh = np.asarray(live.get_val(cp + n + ".def_mesh"), dtype=float)
+        f = np.asarray(live.get_val(cp + "aero_states." + n + "_sec_forces"), dtype=float)
+        loads = np.asarray(live.get_val(cp + n + "_loads.loads"), dtype=float)
+        nodes = np.asarray(live.get_val(cp + n + ".nodes"), dtype=float)
+        disp = np.asarray(live.get_val(cp + n + ".disp"), dtype=float)
+        a = 0.5 * (0.75 * mesh[:-1, :-1, :] + 0.25 * mesh[1:, :-1, :]) + 0.5 * (0.75 * mesh[:-1, 1:, :] + 0.25 * mesh[1:, 1:, :])
+        F_aero = f.reshape(-1, 3).sum(axis=0)
+        M_aero = np.cross(a.reshape(-1, 3), f.reshape(-1, 3)).sum(axis=0)
+        x = nodes + disp[:, :3]
+        F_str = loads[:, :3].sum(axis=0)
+        M_str = np.cross(x, loads[:, :3]).sum(axis=0) + loads[:, 3:].sum(axis=0)
+        fs = float(np.sum(np.abs(f))) + 1e-300
+        ms = float(np.sum(np.abs(np.cross(a.reshape(-1, 3), f.reshape(-1, 3))))) + 1e-300
+        ef = float(np.max(np.abs(F_str - F_aero)))
+        em = float(np.max(np.abs(M_str - M_aero)))
+        out.append(("total_force", n, ef, fs, ef <= 1e-9 * fs))
+        out.append(("total_moment", n, em, ms, em <= 1e-8 * ms))
     return out
 
 
@@ -427,6 +462,12 @@ def execute(case, stop_at_first=True, collect=True, known=None):
                     res["margin"] = max(res["margin"], err / (RT_ROUNDTRIP * scale))
                 if not ok:
                     violation("roundtrip", "%s:%s" % (what, n), err, scale, {"after": label})
+            if zoo.is_wind_off(getattr(model, "_cur_point", None)):
+                continue  # no aerodynamic force to balance
+            for what, n, err, scale, ok in conservation(model, pn):
+                probe("conservation_checked")
+                if not ok:
+                    violation("conservation", "%s:%s" % (what, n), err, scale, {"after": label})
 
     ref_cache = {}
 
